@@ -27,3 +27,7 @@ pub assume_specification<T> [std::option::Option::<T>::or] (o: std::option::Opti
     ensures r == (if o is Some { o } else { optb });
 pub assume_specification<T, U> [std::option::Option::<T>::and] (o: std::option::Option<T>, optb: std::option::Option<U>) -> (r: std::option::Option<U>)
     ensures r == (if o is Some { optb } else { None::<U> });
+
+// std::mem::take: hands back the old value; what is left behind is T::default() - not specified here (any value)
+pub assume_specification<T: std::default::Default> [std::mem::take::<T>] (dest: &mut T) -> (r: T)
+    ensures r == *old(dest);
